@@ -2,7 +2,7 @@
 use super::common::*;
 use super::e2e::Gate;
 use super::peer::*;
-use crate::choice::{chance, draw, pick};
+use crate::choice::{chance, draw, draw_usize, pick};
 use crate::exec::{self, Exec, Stop};
 use crate::net::{self, Net, NetCfg, NetWorld, SimBuf, SimConn, CLIENT, SERVER};
 use crate::obs;
@@ -37,6 +37,15 @@ fn pad_exact(fields: &mut Vec<Field>, target: u64) -> bool {
     let b = *pick(&[b'v', 0xe9u8, b'\\', b'0', 0xffu8]);
     if b != b'v' {
         obs::count("probe.padding_expands_under_huffman");
+    }
+    // one section in three: the padding is two lines with the same name (one name, two values in the HeaderMap):
+    // the size rule counts every line
+    if k >= 33 + 2 && draw(3) == 2 {
+        let k1 = 1 + draw_usize(k - 33 - 1);
+        fields.push((b"p".to_vec(), vec![b; k1]));
+        fields.push((b"p".to_vec(), vec![b; k - 33 - k1]));
+        obs::count("probe.one_name_with_two_values");
+        return true;
     }
     fields.push((b"p".to_vec(), vec![b; k]));
     true
@@ -721,7 +730,7 @@ impl Check for C10 {
     fn meta(&self) -> Meta {
         Meta {
             level: "exploration",
-            rule: "receive: configured limit L over {0,1,41,42,43,100,300,1000,16383,16384,2^30,2^62-1} x field sections (request, response, trailers; reference-encoded with drawn representations) whose RFC 9114 4.2.2 size sweeps L-2..L+2, L/2 and L+k x both roles x the stream used whole, split before anything is received on it, or split between body and trailers x the peer's own advertised limit over {default,1000,42,41,0} (decides the 431 answer; the client's limit known to the server when the application asks for the request is recorded, so a 431 sent although a limit below its size was already in force is certain) x a small neighbour message; send: peer-advertised limit P over the same grid x sections (request, response, trailers) sweeping P-2..P+2 x both roles x the peer's SETTINGS written after 0/3/10/40 scheduler turns (before, during or after the send call; send_request additionally made to wait for stream credit) ; chunkings, task order drawn; non-trivial = the send/receive under test happened; distinct = distinct schedule signatures",
+            rule: "receive: configured limit L over {0,1,41,42,43,100,300,1000,16383,16384,2^30,2^62-1} x field sections (request, response, trailers; reference-encoded with drawn representations) whose RFC 9114 4.2.2 size sweeps L-2..L+2, L/2 and L+k (the padding one field line or two lines with the same name) x both roles x the stream used whole, split before anything is received on it, or split between body and trailers x the peer's own advertised limit over {default,1000,42,41,0} (decides the 431 answer; the client's limit known to the server when the application asks for the request is recorded, so a 431 sent although a limit below its size was already in force is certain) x a small neighbour message; send: peer-advertised limit P over the same grid x sections (request, response, trailers) sweeping P-2..P+2 x both roles x the peer's SETTINGS written after 0/3/10/40 scheduler turns (before, during or after the send call; send_request additionally made to wait for stream credit) ; chunkings, task order drawn; non-trivial = the send/receive under test happened; distinct = distinct schedule signatures",
             real: &["h3 client/server send paths (send_request, send_response, send_trailers) and receive paths (resolve_request incl. the automatic 431, recv_response, recv_trailers)", "h3 qpack stateless codec size accounting", "settings application via the connection driver"],
             stub: &["QUIC transport (SimQuic, with a first-write probe that samples the applied peer settings)", "executor (simexec)", "reference peer (script, reference codecs)", "applications"],
             assumptions: &["the limit in force for a send is the applied peer setting at the moment h3 hands the HEADERS frame to the transport (its send_data call, sampled by the simulator); SETTINGS that are applied while that write is blocked cannot be honoured any more; for a refusal it is the value after the call (settings only ever change from the default to the advertised value)", "limits above 200000 are only exercised on the accept side"],
